@@ -398,11 +398,12 @@ func (stub *stub) Start(ctx context.Context) (retErr error) {
 		return fmt.Errorf("failed to multiplex ttrpc client connection: %w", err)
 	}
 
+	doneC := stub.doneC
 	closedC := make(chan struct{})
 	clientOpts := []ttrpc.ClientOpts{
 		ttrpc.WithOnClose(func() {
 			close(closedC)
-			stub.connClosed()
+			stub.connClosed(doneC)
 		}),
 	}
 	rpcc := ttrpc.NewClient(conn, append(clientOpts, stub.clientOpts...)...)
@@ -592,11 +593,14 @@ func (stub *stub) register(ctx context.Context) error {
 	return nil
 }
 
-// Handle a lost connection.
-func (stub *stub) connClosed() {
+// Handle a lost connection. The session which lost its connection is identified
+// by its doneC. If the stub has been restarted since, the new session is left alone.
+func (stub *stub) connClosed(doneC chan struct{}) {
 	verifhook.Point("stub.connclosed")
 	stub.Lock()
-	stub.close()
+	if stub.doneC == doneC {
+		stub.close()
+	}
 	stub.Unlock()
 	if stub.onClose != nil {
 		stub.onClose()
